@@ -105,7 +105,6 @@ class Number {
 inline Number parseNumber(const char* s) {
   using traits = FloatTraits<JsonFloat>;
   using mantissa_t = largest_type<traits::mantissa_type, JsonUInt>;
-  using exponent_t = traits::exponent_type;
 
   ARDUINOJSON_ASSERT(s != 0);
 
@@ -136,7 +135,7 @@ inline Number parseNumber(const char* s) {
     return Number();
 
   mantissa_t mantissa = 0;
-  exponent_t exponent_offset = 0;
+  int exponent_offset = 0;
   const mantissa_t maxUint = JsonUInt(-1);
 
   while (isdigit(*s)) {
@@ -196,13 +195,8 @@ inline Number parseNumber(const char* s) {
     }
 
     while (isdigit(*s)) {
-      exponent = exponent * 10 + (*s - '0');
-      if (exponent + exponent_offset > traits::exponent_max) {
-        if (negative_exponent)
-          return Number(is_negative ? -0.0f : 0.0f);
-        else
-          return Number(is_negative ? -traits::inf() : traits::inf());
-      }
+      if (exponent < 100000000)  // saturate to avoid an integer overflow
+        exponent = exponent * 10 + (*s - '0');
       s++;
     }
     if (negative_exponent)
@@ -213,6 +207,15 @@ inline Number parseNumber(const char* s) {
   // we should be at the end of the string, otherwise it's an error
   if (*s != '\0')
     return Number();
+
+  // out of range? (this also keeps make_float() within its tables)
+  if (exponent > traits::exponent_max) {
+    if (mantissa == 0)
+      return Number(is_negative ? -0.0f : 0.0f);
+    return Number(is_negative ? -traits::inf() : traits::inf());
+  }
+  if (exponent < -traits::exponent_max - 20)
+    return Number(is_negative ? -0.0f : 0.0f);
 
 #if ARDUINOJSON_USE_DOUBLE
   bool isDouble = exponent < -FloatTraits<float>::exponent_max ||
